@@ -50,8 +50,9 @@ namespace cdsv {
         Item() : key( 0 ), id( 0 ), magic( ITEM_LIVE ) {}
         Item( int k, int64_t i ) : key( k ), id( i ), magic( ITEM_LIVE ) {}
         explicit Item( int k ) : key( k ), id( 0 ), magic( ITEM_LIVE ) {}
-        Item( Item const& o ) : key( o.key ), id( o.id ), magic( o.magic ) {}
-        Item& operator=( Item const& o ) { key = o.key; id = o.id; magic = o.magic; return *this; }
+        // the id travels through payload_copy so that TSan attributes a race on stored user data to the harness (see core.h)
+        Item( Item const& o ) : key( o.key ), magic( o.magic ) { payload_copy( reinterpret_cast<uint64_t*>( &id ), reinterpret_cast<uint64_t const*>( &o.id ), 1 ); }
+        Item& operator=( Item const& o ) { key = o.key; magic = o.magic; payload_copy( reinterpret_cast<uint64_t*>( &id ), reinterpret_cast<uint64_t const*>( &o.id ), 1 ); return *this; }
         ~Item() { magic = ITEM_DEAD; }
     };
     struct ItemLess {
@@ -86,7 +87,7 @@ namespace cdsv {
     inline int64_t observe( Item const& it, const char* where )
     {
         if ( it.magic != ITEM_LIVE ) item_observed_dead( where );
-        return it.id;
+        return int64_t( payload_load( reinterpret_cast<uint64_t const*>( &it.id )));
     }
 
     struct SetPlan {
